@@ -82,7 +82,7 @@ def proof_step(pid, log, areas=('base',)):
         t0 = time.time()
         import glob as _glob
         mods = ['Properties_%s' % pid] + sorted(os.path.basename(f)[:-2] for f in _glob.glob(os.path.join(COQ, 'Properties_%s_*.v' % pid)))
-        rc, out = sh('timeout 3000 make -k -j16 %s %s 2>&1 | grep -v "^COQC\\|^COQDEP\\|conda\\|pyenv\\|shims" | tail -40' % (' '.join(m + '.vo' for m in mods), ' '.join('Extract_%s.vo' % a for a in areas)), cwd=COQ)
+        rc, out = sh('timeout 3000 make -k -j16 COQC="timeout 1500 coqc" %s %s 2>&1 | grep -v "^COQC\\|^COQDEP\\|conda\\|pyenv\\|shims" | tail -40' % (' '.join(m + '.vo' for m in mods), ' '.join('Extract_%s.vo' % a for a in areas)), cwd=COQ)
         built = all(os.path.exists(os.path.join(COQ, m + '.vo')) and os.path.getmtime(os.path.join(COQ, m + '.vo')) >= os.path.getmtime(os.path.join(COQ, m + '.v')) for m in mods)
         if 'Error' in out or not built:
             res['errors'].append('coq build failed: ' + out[-1500:])
